@@ -251,9 +251,7 @@ Definition price_unverified : list (string * string) :=
   [("liquidation.MsgLiquidateBorrow",
     "cross-pool branches and UpdateLockedBorrows assign the price error to _ (msg_server.go:163,177; liquidate_borrow.go)");
    ("auction.MsgPlaceDutchLendBid",
-    "the close path reaches lend.CreteNewBorrow / liquidation.UpdateLockedBorrows which assign the price error to _");
-   ("auctionsV2.MsgPlaceMarketBid",
-    "KNOWN FINDING C14-F1 (reproduced): PlaceDutchAuctionBid reads the debt asset's record with `debtToken, _ := GetTwa(..)`, discarding the found flag and never looking at IsPriceActive (bid.go:32)")].
+    "the close path reaches lend.CreteNewBorrow / liquidation.UpdateLockedBorrows which assign the price error to _")].
 Definition price_scope : list handler :=
   filter (fun h => mem (h_module h) price_modules && negb (mem (h_name h) (map fst price_unverified))) handlers.
 Definition price_fail_closed (h : handler) : bool := price_all_checked h && no_unchecked_price (h_items h).
@@ -386,12 +384,7 @@ Definition holds_C14_price (some_inactive needed_inactive ok base_ok same_as_bas
   (negb (some_inactive && ok) || (base_ok && same_as_base)) &&
   (ok || negb changed).
 
-(* KNOWN FINDING C14-F1 (reproduced on the real code): auctionsV2 PlaceDutchAuctionBid reads the debt
-   asset's TimeWeightedAverage record directly and discards both the found flag and IsPriceActive
-   (x/auctionsV2/keeper/bid.go:32), so MsgPlaceMarketBid on an auction whose debt price comes from
-   the oracle succeeds, valued at the last recorded price, while that feed is inactive.  The class:
-   that handler, a needed feed inactive, success with the very outcome of the all-active run. *)
-Definition kf_C14_bid_stale_debt_price (n : string) (needed_inactive ok base_ok same_as_base : bool) : bool :=
-  String.eqb n "auctionsV2.MsgPlaceMarketBid" && needed_inactive && ok && base_ok && same_as_base.
-
+(* C14-F1 (fixed): auctionsV2 PlaceDutchAuctionBid used the debt asset's oracle record without
+   looking at the found flag or IsPriceActive; the regression is the matrix case
+   auctionsV2.MsgPlaceMarketBid x every price subset containing the debt asset. *)
 Definition holds_C14_sweep (breaker started : bool) : bool := negb (breaker && started).
